@@ -332,8 +332,8 @@ def parse_ts(out):
         elif tk[0] == 'HS': cur['hs'].append(tk)
         elif tk[0] == 'INFO': cur['info'] = tk
         elif tk[0] == 'TARGET': cur['targets'].append({'time': tk[1], 'rets': []}); buf = []
-        elif tk[0] == 'H': buf.append((int(tk[1]), tk[2], fx(tk[3]), fx(tk[4]), fx(tk[5])))
-        elif tk[0] == 'RET':
+        elif tk[0] == 'H' and len(tk) == 6 and tk[1].isdigit(): buf.append((int(tk[1]), tk[2], fx(tk[3]), fx(tk[4]), fx(tk[5])))
+        elif tk[0] == 'RET' and len(tk) >= 11:
             n = int(tk[7])
             r = {'status': tk[1], 't': fx(tk[2]), 'adv': fx(tk[3]), 'over': int(tk[4]), 'w0': fx(tk[5]), 'w1': fx(tk[6]),
                  'ids': [int(x) for x in tk[8:8 + n]], 'qa': fx(tk[9 + n]), 'qb': fx(tk[10 + n]), 'h': buf, 't_s': tk[2], 'adv_s': tk[3], 'w0_s': tk[5]}
